@@ -770,9 +770,7 @@ impl<'g> Cx<'g> {
         if w.label.is_some() {
             return self.bail(w.span(), "labelled loops are not supported");
         }
-        if let syn::Expr::Let(_) = &*w.cond {
-            return self.bail(w.span(), "`while let` is not supported");
-        }
+
         let fuel_src = match self.fuels.get(self.fuel_next) {
             Some(f) => f.clone(),
             None => {
@@ -798,12 +796,19 @@ impl<'g> Cx<'g> {
         self.loop_stack.push(m.clone());
         let r = (|| -> R<Doc> {
             let mut cs: Vec<Stmt> = Vec::new();
+            let brk = Doc::atom(format!("Exec.ret (RustSem.LoopExit.brk {})", Self::tuple_val(&m)));
+            if let syn::Expr::Let(l) = &*w.cond {
+                // `while let PAT = scrutinee { body }`: the scrutinee is evaluated at the start of every round
+                let (scrut, st) = self.expr(&l.expr, None, &mut cs)?;
+                let (p, binds) = self.pat(&l.pat, &st)?;
+                let (body, _, _) = self.block(&w.body, &Tail::Unit(m.clone()), &binds)?;
+                return Ok(Doc::seq(cs, Doc::Match(scrut, vec![(p, body), ("_".into(), brk)])));
+            }
             let (c, ct) = self.expr(&w.cond, Some(&Ty::Bool), &mut cs)?;
             if !matches!(ct, Ty::Bool) {
                 return self.bail(w.cond.span(), "`while` condition is not a bool");
             }
             let (body, _, _) = self.block(&w.body, &Tail::Unit(m.clone()), &[])?;
-            let brk = Doc::atom(format!("Exec.ret (RustSem.LoopExit.brk {})", Self::tuple_val(&m)));
             Ok(Doc::seq(cs, Doc::If(c, Box::new(body), Box::new(brk))))
         })();
         self.loop_stack.pop();
@@ -1188,7 +1193,7 @@ impl<'g> Cx<'g> {
                 let (x, _) = self.expr(args[1], Some(&et), stmts)?;
                 format!("RustSem.resize {} {} {}", cur, n, x)
             }
-            ("push", 1) => {
+            ("push", 1) | ("push_back", 1) => {
                 let (x, _) = self.expr(args[0], Some(&et), stmts)?;
                 format!("RustSem.push {} {}", cur, x)
             }
